@@ -741,6 +741,12 @@ namespace hs
                             r.fam, r.array ? "array" : "node", r.array ? r.count * r.size : r.size,
                             f.type.c_str());
             }
+            // a request that failed because its one upstream call failed consumed nothing: the announced size
+            // of the next growth must be what it was
+            if (fired && calls == 1 && have_caps && c.kind != K_ITER && c.grows && S.o->reading(1) != next0)
+                violate("C18,C03", "next_capacity_changed_by_failed_growth",
+                        "the upstream call of this request failed, yet next_capacity() went from %zu to %zu", next0,
+                        S.o->reading(1));
             S.failure_seen   = true;
             S.last_end_valid = false; // a failed request may have moved the stack to a fresh block
             for (auto& m : S.markers)
